@@ -265,8 +265,15 @@ def run(index, rep, tier):
             src = g.params[1] if len(g.params) > 1 else None
             canon = canonical_locals(g)
             sig = set()
+            # the memo is what goes into deepcopy(); other containers the routine makes for its own bookkeeping (a set of
+            # taxa already seen, used to refuse a collision) are neither state of self nor of the memo
+            memo_names = {a.id for c in calls_in(g.node) if call_name(c) == "deepcopy" for a in c.args[1:] if isinstance(a, ast.Name)} | {"memo"}
+            scratch = {t.id for a in walk_no_nested(g.node) if isinstance(a, ast.Assign) for t in a.targets if isinstance(t, ast.Name) and t.id not in memo_names
+                       and (isinstance(a.value, (ast.Dict, ast.List, ast.Set)) or (isinstance(a.value, ast.Call) and call_name(a.value) in ("set", "dict", "list", "OrderedDict")))}
             for w in writes_in(g.node):
                 base = w.base_text
+                if isinstance(w.base, ast.Name) and w.base.id in scratch:
+                    continue
                 txt = norm_stmt(w.stmt) if w.kind != "mutcall" else norm(w.call)
                 for nm, c in canon.items():
                     txt = re.sub(r"\b%s\b" % re.escape(nm), c, txt)
@@ -276,7 +283,7 @@ def run(index, rep, tier):
                 # afterwards (R12.11) it no longer matters whether the instance dict is shared or filled
                 m_ad = re.match(r"^self\.__dict__(?: = |\.update\()(\$?\w+)\.__dict__\)?$", txt)
                 if m_ad:
-                    sig.add(("adopt", "self adopts the state of %s" % m_ad.group(1)))
+                    sig.add(("adopt", "self adopts the state of %s" % ("$src" if m_ad.group(1) == "$src" else "the deep copy")))
                     continue
                 sig.add((w.kind, txt[:120]))
             sigs[cq] = (g, sig)
